@@ -31,13 +31,14 @@ class AsmData:
             for a in few:
                 for b in few:
                     out.append({"id": "%s/2/%s,%s" % (d, a, b), "kind": "list", "dir": d, "spell": [a, b]})
-            ks = (3, 4, 8) if tier == "thorough" else (3,)
+            ks = (3, 4) if tier == "thorough" else (3,)
             for k in ks:
                 for sp in (few if tier == "thorough" else ["dec3", "neg3"]):
                     out.append({"id": "%s/%d/%s" % (d, k, sp), "kind": "list", "dir": d, "spell": [sp] * k,
                                 "bounded": "list length %d" % k if k > 3 else None})
             out.append({"id": "%s/2/equ,lit" % d, "kind": "list", "dir": d, "spell": ["dec3", "dec3"], "via": "equ-first"})
             out.append({"id": "%s/64/concrete" % d, "kind": "concrete-list", "dir": d, "bounded": "one concrete list of 64 values"})
+            out.append({"id": "%s/8/one-symbolic" % d, "kind": "list8", "dir": d, "bounded": "list of 8 values, one symbolic element at each position"})
         for sp in ("dec1", "dec3", "dec5", "hex2", "hex4"):
             out.append({"id": "RMB/size/%s" % sp, "kind": "rmb-size", "spell": sp})
         ns = [0, 1, 2, 3, 255, 256, 257, 1000, 4096, 65535] if tier == "thorough" else [0, 1, 2, 255, 256, 1000]
@@ -127,6 +128,45 @@ class AsmData:
             got = st.bytes[i] if width == 1 else st.bytes[2 * i] * 256 + st.bytes[2 * i + 1]
             ok = ok & (got == tc(v, width))
         env.ensure("C05:bytes", ok, tags, sig("value-mismatch"))
+
+    def k_list8(self, env, cell, native):
+        """8-element lists: seven concrete in-range values and ONE symbolic element whose position is enumerated"""
+        d = cell["dir"]
+        width = 1 if d == "FCB" else 2
+        pos = env.hole_choice("pos", list(range(8)))
+        txt, v = literal(env, "dec3" if width == 1 else "hex4", tag="e")
+        lo, hi = (0, 255) if width == 1 else (0, 65535)
+        env.assume(v <= hi)
+        consts = [17, 3, 200, 0, 99, 128, 255, 1]
+        parts, vals = [], []
+        for i in range(8):
+            if i:
+                parts.append(",")
+            if i == pos:
+                parts.extend(txt)
+                vals.append(v)
+            else:
+                parts.append(str(consts[i]))
+                vals.append(consts[i])
+        lines = [env.text(" ", d, " ", parts, "\n")]
+        env.info["lines"] = lines
+        run = assemble(env, lines)
+        sig = lambda what: (lambda: "%s/8:%s:pos=%d" % (d, what, pos)) if native else None
+        if not self._common(env, run, sig):
+            return
+        if run.status != "ok":
+            env.fail("C05:accepted", ("C05",), sig("rejected:%s" % run.exc_class))
+            return
+        st = run.stmts[0]
+        env.ensure("C02:size", st.size == len(st.bytes), ("C02",), sig("size=%s,len=%d" % (st.size, len(st.bytes))))
+        if len(st.bytes) != 8 * width:
+            env.fail("C05:bytes", ("C05",), sig("count=%d,want=%d" % (len(st.bytes), 8 * width)))
+            return
+        ok = True
+        for i, x in enumerate(vals):
+            got = st.bytes[i] if width == 1 else st.bytes[2 * i] * 256 + st.bytes[2 * i + 1]
+            ok = ok & (got == x)
+        env.ensure("C05:bytes", ok, ("C05",), sig("value-mismatch"))
 
     def k_concrete_list(self, env, cell, native):
         d = cell["dir"]
